@@ -2,7 +2,7 @@
    harness/props/c06_translate.py reads out of the SOURCE of the tree under check left open as
    parameters (records [mparams], [mmparams], [uparams], [rparams]):
 
-     match      default of presorted=, index of the element whose class is tested, the classes named in
+     match      ORDER of `el = arr1[K]` and the emptiness guard, default of presorted=, index of the element whose class is tested, the classes named in
                 the isinstance tests and the two values is_string is set to, operators / constants /
                 connective / exception class of the emptiness guard, operator and exception class of the
                 uniqueness guard, polarity of both `if not presorted`, the searchsorted side, connective
@@ -61,7 +61,8 @@ Record mparams := mkM {
   mp_clamp_conn : conn; mp_clamp_op : cmpop;   (* if is_string CONN arr2.max() OP arr1.max(): *)
   mp_bad_op : cmpop; mp_clamp_minus : nat;     (* sub1[sub1 OP arr1.size] = arr1.size - K *)
   mp_filter_if_not : bool;
-  mp_eq_sorted : cmpop; mp_eq_presorted : cmpop
+  mp_eq_sorted : cmpop; mp_eq_presorted : cmpop;
+  mp_el_first : bool                       (* statement ORDER: `el = arr1[K]` (+ is_string) before the emptiness guard (true) or after it *)
 }.
 
 Record mmparams := mkMM { mm_presorted_default : bool; mm_pass : passarg }.
@@ -119,14 +120,17 @@ Section Skel.
   (* ------------------------------------------------------------------ match *)
   Definition match_g (P : mparams) (k : elclass) (presorted : bool) (st : list nat) (a1 a2 : list A)
     : result (list nat * list nat) :=
-    match nth_error a1 (mp_el_index P) with
-    | None => Err EIndex                                                (* el = arr1[K] *)
-    | Some _ =>
-      let is_string := if is_string_g (mp_classes P) k then mp_str_then P else mp_str_else P in
-      let e1 := cmp_nat (mp_empty_op1 P) (length a1) (mp_empty_k1 P) in
-      let e2 := cmp_nat (mp_empty_op2 P) (length a2) (mp_empty_k2 P) in
-      if (match mp_empty_conn P with COr => e1 || e2 | CAnd => e1 && e2 end) then Err (mp_empty_err P)
-      else if cmp_nat (mp_uniq_op P) (length (dedup a1)) (length a1) then Err (mp_uniq_err P)
+    let is_string := if is_string_g (mp_classes P) k then mp_str_then P else mp_str_else P in
+    let e1 := cmp_nat (mp_empty_op1 P) (length a1) (mp_empty_k1 P) in
+    let e2 := cmp_nat (mp_empty_op2 P) (length a2) (mp_empty_k2 P) in
+    (* `el = arr1[K]`: IndexError on an array without element K *)
+    let el (kont : result (list nat * list nat)) :=
+      match nth_error a1 (mp_el_index P) with None => Err EIndex | Some _ => kont end in
+    (* the emptiness guard *)
+    let guard (kont : result (list nat * list nat)) :=
+      if (match mp_empty_conn P with COr => e1 || e2 | CAnd => e1 && e2 end) then Err (mp_empty_err P) else kont in
+    let rest :=
+      if cmp_nat (mp_uniq_op P) (length (dedup a1)) (length a1) then Err (mp_uniq_err P)
       else
         let n := length a1 in
         (* if [not] presorted: st1 = np.argsort(arr1) else: st1 = None *)
@@ -156,8 +160,8 @@ Section Skel.
           do vals <- ogather a1 sub1;
           let sub2 := where_ (cmp_mask (mp_eq_presorted P) vals a2) in
           do o1 <- ogather sub1 sub2;
-          Ok (o1, sub2)
-    end.
+          Ok (o1, sub2) in
+    if mp_el_first P then el (guard rest) else guard (el rest).
 
   (* match_multi: `return match(arr1input, arr2input, presorted=<const or the caller's>)` *)
   Definition match_multi_g (Q : mmparams) (P : mparams) (k : elclass) (presorted : bool) (st : list nat)
@@ -249,7 +253,7 @@ Arguments unique_call_g {A}. Arguments rd_loop_g {A}. Arguments rem_dup_call_g {
 (* the values the hand model Model.v / Forms.v is written for (the repaired tree); Tie.v proves
    that Gen.v's values give the same functions, RefTie below that these do *)
 Definition ref_match : mparams :=
-  mkM false 0 (mkCls true true) true false CEq 0 COr CEq 0 EValue CNe EValue true SLeft COr CGt CEq 1 true CEq CEq.
+  mkM false 0 (mkCls true true) true false CEq 0 COr CEq 0 EValue CNe EValue true SLeft COr CGt CEq 1 true CEq CEq true.
 Definition ref_match_multi : mmparams := mkMM false (PassConst false).
 Definition ref_unique : uparams := mkU false (UViaSort 0) 0 (UViaSort 0) 1 0 CLt CNe 1 1 0 1 false.
 (* the code as found (commit 29e445c): val = arr[0], keep[0] left at its zero initialisation *)
